@@ -15,7 +15,7 @@ RULE = ("ss: a real client Session (padding scheme: library default and 4 others
         "observation, Pending only when nothing is waiting, EOF only after the end and only after all data). "
         "Non-trivial = at least two chunks and (a chunk >= 65536, or an empty chunk, or fragments that cut a 7-byte "
         "header, or >= 2 streams); distinct by sha256 of the case.")
-SIDE_LEMMAS = 5
+SIDE_LEMMAS = 4
 ASSUMPTIONS = ["tokio mpsc channels are FIFO, the session's single forwarding task preserves per-stream order (modelled as sendq)",
                "the padded wire satisfies C04_wellformed (decoded frames minus Waste = submitted frames); the driver uses the real padding",
                "transport writes complete (write failures: C09); back-pressure is exercised by the driver, not part of the theorems",
